@@ -139,9 +139,11 @@ for (nm, fn, tier, tmo) in [('h2.5_2_5', 'aln_fin_h2_5_2_5', 'quick', 2400), ('h
     ob('C04.fin.' + nm, ['C04'], 'aln_writer/fin', fn, tier=tier, functions=[AW + 'finalise', AW + 'fill_contig', AW + 'fill_fwd_bases'], needs_parts=['aln_writer/common'],
        sym='entire writer state under assume(Inv) with <= 2 centres; 2 symbolic repeat coordinates; reference bases', oracle='output = specification of the property (centre -> middle base; within h of a matched centre on the same contig -> reference base; else gap; N at non-gap repeat coordinates)',
        bounds='layout ' + nm + ', <= 2 matched centres', timeout=tmo, mem_gb=12)
+HIST_DEAD = {'h2.10.two': ['windows on two contigs', 'repeat coordinate on a flank', 'two windows with a gap between them'], 'h2.10.one_rep': ['two overlapping windows on one contig', 'two windows with a gap between them', 'windows on two contigs'],
+             'h2.6_5.two': ['two windows with a gap between them', 'repeat coordinate on a flank']}
 for (nm, fn) in [('h2.10.two', 'aln_hist_h2_10_two'), ('h2.10.one_rep', 'aln_hist_h2_10_one_rep'), ('h2.6_5.two', 'aln_hist_h2_6_5_two')]:
     ob('C04.hist.' + nm, ['C04'], 'aln_writer/hist', fn, tier='quick' if nm == 'h2.10.two' else 'thorough', family='C04.hist', functions=[AW + 'new', AW + 'write_split_kmer', AW + 'finalise'], needs_parts=['aln_writer/common'],
-       sym='reference bases, 1 or 2 centres in reference order, bases, mask flag, optional repeat coordinate', oracle='output = specification directly (no invariant involved)', bounds='layout ' + nm + ', <= 2 calls', timeout=2400, mem_gb=12)
+       sym='reference bases, 1 or 2 centres in reference order, bases, mask flag, optional repeat coordinate', oracle='output = specification directly (no invariant involved)', bounds='layout ' + nm + ', <= 2 calls', timeout=2400, mem_gb=12, dead_witnesses=HIST_DEAD[nm])
 
 # ------------------------------------------------------------------ C01.acc
 SD = 'src/ska_dict.rs::SkaDict::'
@@ -157,12 +159,12 @@ for (nm, fn, tier, nk, ns, tmo) in [('2x2', 'append_new_2x2', 'thorough', 2, 2, 
     ob('C03.new.' + nm, ['C03', 'C02', 'C01', 'C07'], 'merge_ska_dict/append', fn, tier=tier, functions=[MD + 'new', MD + 'append', MA + 'new', MA + 'n_sample_kmers', MA + 'iter'], inst='u64',
        needs_parts=['merge_ska_dict/common', 'ska_dict/acc', 'merge_ska_array/common'], caps={'MCAP': nk, 'SCAP': 1, 'ACAP': nk * ns}, models=['hashbrown', 'ndarray'],
        sym='%d sample dictionaries over a %d-key universe: presence and IUPAC codes symbolic; append order %s' % (ns, nk, nm), oracle='merged entry = sample base in its own column, 0/- where absent; one row per k-mer of the union; counts; names by sample index; independent of append order',
-       bounds='%d samples, %d keys' % (ns, nk), timeout=tmo, mem_gb=16)
+       bounds='%d samples, %d keys' % (ns, nk), timeout=tmo, mem_gb=16, dead_witnesses=['conversion returns'])
 for m in range(16):
     ob('C03.new.2x2.p%d' % m, ['C03', 'C02', 'C01', 'C07'], 'merge_ska_dict/append', 'append_new_2x2_p%d' % m, tier='thorough', functions=[MD + 'new', MD + 'append', MA + 'new', MA + 'n_sample_kmers', MA + 'iter'], inst='u64',
        needs_parts=['merge_ska_dict/common', 'ska_dict/acc', 'merge_ska_array/common'], caps={'MCAP': 2, 'SCAP': 1, 'ACAP': 4}, models=['hashbrown', 'ndarray'],
        sym='2 sample dictionaries over a 2-key universe: IUPAC codes symbolic, presence pattern concrete (mask %d), append order %s' % (m, 'natural' if m % 2 == 0 else 'swapped'),
-       oracle='as C03.new.2x2', bounds='2 samples, 2 keys', timeout=1200, mem_gb=10, quick_sample={'family': 'C03.new', 'pick': 3, 'always': m in (7, 14)})
+       oracle='as C03.new.2x2', bounds='2 samples, 2 keys', timeout=1200, mem_gb=10, dead_witnesses=['all k-mers present, first sample lacks one', 'a single shared or private k-mer'], quick_sample={'family': 'C03.new', 'pick': 3, 'always': m in (7, 14)})
 for n1, n2 in ((1, 2), (2, 1)):
     for p0 in range(4):
         for p1 in range(4):
@@ -208,7 +210,8 @@ for nr in (2, 3):
         ob('C04.map%s.p%s' % ('' if nr == 2 else '3', pat), ['C04', 'C15'], 'ska_ref/map', 'map%s_p%s' % ('' if nr == 2 else '3', pat), tier='quick' if (nr == 2 and pat in ('11', '10')) else 'thorough', functions=[RS + 'map', BE + 'RC_IUPAC'], inst='u64',
            needs_parts=['ska_ref/common', 'merge_ska_dict/common', 'ska_dict/acc'], caps={'MCAP': 2, 'SCAP': 1, 'ACAP': 2 * nr}, models=['hashbrown', 'ndarray'],
            sym='%d reference k-mers with symbolic identity (3-value universe) and strand flag; dictionary of 2 keys x 2 samples with symbolic cells; key presence concrete (%s)' % (nr, pat),
-           oracle='rows appended in reference order for present keys only; bases complemented iff reference k-mer is reverse strand; positions and names copied', bounds='%d reference k-mers, 2 keys, 2 samples' % nr, timeout=3600, mem_gb=20 if nr == 3 else 14)
+           oracle='rows appended in reference order for present keys only; bases complemented iff reference k-mer is reverse strand; positions and names copied', bounds='%d reference k-mers, 2 keys, 2 samples' % nr, timeout=3600, mem_gb=20 if nr == 3 else 14,
+           dead_witnesses=['all reference k-mers matched', 'single match on the reverse strand'] if pat == '00' else ['nothing matched'])
 ob('C04.map.refuse', ['C04'], 'ska_ref/map', 'map_refuses_other_k', functions=[RS + 'map'], inst='u64', needs_parts=['ska_ref/common', 'merge_ska_dict/common', 'ska_dict/acc'], caps={'MCAP': 2, 'SCAP': 1, 'ACAP': 6}, models=['hashbrown', 'ndarray'],
    sym='-', oracle='panic reachable, return not', bounds='-', timeout=900, mem_gb=8, expected_fail=['in function ska_ref::RefSka::<u64>::map'])
 # ------------------------------------------------------------------ C13.weed
@@ -221,6 +224,19 @@ for nm in ('forward', 'reverse', 'forward_twice', 'reverse_twice'):
 GM = 'src/generic_modes.rs::'
 ob('C06.thr', ['C06'], 'generic_modes/wrap', 'apply_filters_threshold_c4', functions=[GM + 'apply_filters', MA + 'filter'], inst='u64', needs_parts=['merge_ska_array/common'], caps={'ACAP': 4, 'SCAP': 1, 'MCAP': 1}, models=['ndarray'],
    sym='min_freq: any f64 in [0,1]; one row of 4 symbols over {A,C,G,T,-}', oracle='row emitted iff present in >= ceil(4 x min_freq) samples (IEEE double arithmetic, the CLI\'s own)', bounds='4 samples', timeout=1800, mem_gb=12)
+def dw_dead(c, pm, f2):
+    npres = bin(pm).count('1')
+    passes = npres >= (c * f2 + 1) // 2
+    dead = []
+    if not (passes and npres == c):
+        dead.append('a constant site')
+    if passes:
+        dead.append('a k-mer below the frequency threshold')
+    else:
+        dead.append('a variable site')
+    return dead
+
+
 for c, pats in ((2, (1, 2, 3)), (3, (1, 5, 6, 7))):
     for pm in pats:
         for f2 in (0, 1, 2):
@@ -232,7 +248,8 @@ for c, pats in ((2, (1, 2, 3)), (3, (1, 5, 6, 7))):
                    stubs=['MergeSkaArray::distance -> recorder that compares (constant, rows) with the expectation and ends the path (environment stub)', 'io_utils::set_ostream -> in-memory sink (environment stub)'],
                    sym='one row x %d samples: bases symbolic over {A,C,G,T}, presence pattern concrete (mask %d); min_freq = %s; filter ambiguous = %s' % (c, pm, f2 / 2.0, amb),
                    oracle='recorded constant = constant sites among k-mers passing the frequency threshold; table handed on = k-mers passing it and not constant',
-                   bounds='1 k-mer, %d samples' % c, timeout=3600, mem_gb=20, mem_expect_gb=8 if amb else 5)
+                   bounds='1 k-mer, %d samples' % c, timeout=3600, mem_gb=20, mem_expect_gb=8 if amb else 5,
+                   dead_witnesses=dw_dead(c, pm, f2))
 
 # ------------------------------------------------------------------ C08.wrap / C13.wrap / C10.A / C05.ref
 ob('C08.wrap', ['C08', 'C10'], 'generic_modes/wrap', 'delete_wrapper_2x3', functions=[GM + 'delete', MA + 'delete_samples', MA + 'update_counts'], inst='u64', needs_parts=['merge_ska_array/common'], caps=CAP23, models=['ndarray', 'hashbrown'],
@@ -247,3 +264,22 @@ for (nm, fn) in [('noconst', 'c10_filter_noconst'), ('nofilter.uk', 'c10_filter_
        caps={'ACAP': 3, 'SCAP': 3, 'MCAP': 1}, models=['ndarray', 'hashbrown'], sym='one row x 3 samples over the 16 stored symbols, threshold 0..=3, arbitrary stored count 0..=3 vs the fresh-build count',
        oracle='identical result (emitted rows, removed count, saved table) whatever count was stored', bounds='1 k-mer, 3 samples, flags: ' + nm, timeout=2400, mem_gb=14)
 ob('C05.ref', ['C05'], 'ska_ref/vcf', 'u8_to_base_all_bytes', functions=['src/ska_ref.rs::u8_to_base'], needs_parts=['ska_ref/common'], sym='byte (256)', oracle='A/C/G/T map to themselves, everything else to N', bounds='complete domain', timeout=600, mem_gb=8)
+
+# ------------------------------------------------------------------ C12.cnt
+BF = 'src/ska_dict/bloom_filter.rs::KmerFilter::'
+for n, tier in ((3, 'quick'), (4, 'thorough')):
+    ob('C12.cnt.%d' % n, ['C12'], 'bloom_filter/cnt', 'cnt_never_lost_%d' % n, tier=tier, functions=[BF + 'filter', BF + 'bloom_add_and_check', BF + 'fingerprint', BF + 'location', SK + 'new', SK + 'get_hash'] + NTF, inst='u64',
+       caps={'MCAP': 2, 'SCAP': 1, 'ACAP': 1}, models=['hashbrown'], stubs=['KmerFilter built directly with a Bloom buffer of 4 words (init not executed)'],
+       sym='%d sightings of one k-mer (each as read or reverse complement), min_count 1..=%d, strand mode, optionally one earlier sighting of an arbitrary other k-mer' % (n, n),
+       oracle='never lost: Equal at or before the min_count-th sighting; exact at the min_count-th sighting when no other k-mer is in the filter', bounds='k=5, %d sightings' % n, timeout=3600, mem_gb=16)
+
+# ------------------------------------------------------------------ C04.case / C04.ref (RefSka::new through the needletail model)
+REFNEW = [RS + 'new', RS + 'track_repeats'] + WINF
+for (nm, fn, tier, tmo) in [('l6', 'ref_new_l6', 'quick', 3600), ('l7n', 'ref_new_l7_n', 'thorough', 7200)]:
+    ob('C04.case.' + nm, ['C04', 'C05', 'C13'], 'ska_ref/new', fn, tier=tier, functions=REFNEW, inst='u64', needs_parts=['ska_ref/common', 'split_kmer/common'], caps={'MCAP': 1, 'SCAP': 3, 'ACAP': 1},
+       models=['needletail (in-memory records)', 'hashbrown', 'ndarray'], stubs=['core::str::from_utf8 -> unchecked (kani::stub)'], sym='one contig of %s bases in either case%s, strand mode' % (nm[1], ' with N' if 'n' in nm[2:] else ''),
+       oracle='k-mer list = window specification with centres ascending and strand flags; stored reference is upper-case; contig name', bounds='k=5, ' + nm, timeout=tmo, mem_gb=20, mem_expect_gb=10)
+for (nm, fn) in [('5_1_6', 'ref_new_repeats_5_1_6'), ('6_0_6', 'ref_new_repeats_6_0_6')]:
+    ob('C04.ref.' + nm, ['C04', 'C13'], 'ska_ref/new', fn, tier='thorough', functions=REFNEW, inst='u64', needs_parts=['ska_ref/common', 'split_kmer/common'], caps={'MCAP': 1, 'SCAP': 4, 'ACAP': 1},
+       models=['needletail (in-memory records)', 'hashbrown', 'ndarray'], stubs=['core::str::from_utf8 -> unchecked (kani::stub)'], sym='three contigs (%s) of upper-case bases, single strand, repeat mask on' % nm,
+       oracle='k-mer list = windows of every contig in order; repeat_coors = exactly the absolute positions within h of the centre of a split k-mer that occurs more than once', bounds='k=5, 12 bases', timeout=7200, mem_gb=28, mem_expect_gb=14)
